@@ -58,3 +58,29 @@ PROPS["C14"] = dict(
     assumptions=["the reader returns each byte of the file exactly once, in order, after rewind()"],
     unproved=[],
 )
+
+PROPS["C12"] = dict(
+    title="Filestore operations cannot reach outside the filestore root",
+    module="Cfdp.Props.C12",
+    namespace="Cfdp.Path",
+    theorems=["C12_contained", "C12_idem"],
+    engines=["path"],
+    design="§6 C12",
+    technique="Lean 4 proof over a component-level model of camino paths + exhaustive differential correspondence with get_native_path",
+    level_text=("Kernel-checked theorem C12_contained: for every root string and every name string the path computed by "
+                "get_native_path is the component list of the root followed only by proper names (non-empty, not '.', not '..', "
+                "no separator), and normalize_path never reaches its unreachable!(); C12_idem: mapping a native path again gives "
+                "the same path (process_request maps twice). The model of Utf8Path::components/strip_prefix/join is tied to the "
+                "code by an exhaustive differential run over all names of <=4 (thorough 5) components from {a,b,.,..,'',r,vroot,rx} "
+                "x {relative, absolute, prefixed by the root, by a sibling extending the root's name, glued to the root} x 8 roots."),
+    level_note=("Trusted: Lean kernel; camino/std path semantics modelled at component level (Unix rules; Prefix components never occur); "
+                "lexical claim only: symlinks inside the root are outside the model; that every NativeFileStore primitive starts with "
+                "get_native_path is checked by the fs engine's sentinel-directory oracle (C13 engine), not by a theorem."),
+    rule=("path engine: exhaustive names over the 8-word alphabet up to 4/5 components x 5 spellings x 3 oracle-checked roots (/vroot/r, rel/r, /) "
+          "+ 5 unchecked roots ('', '.', trailing slash, './' and '..' inside the root) + random names with odd characters. "
+          "Non-trivial = result has a component after the root."),
+    exhaustive_part=True,
+    assumptions=["no symbolic links inside the filestore root", "Unix path rules"],
+    unproved=["that every filestore primitive (create/delete/rename/append/replace/mkdir/rmdir/open/get_size) applies get_native_path to each "
+              "of its names is established by the fs engine's before/after snapshot of a sentinel parent directory, not by a theorem"],
+)
